@@ -774,6 +774,12 @@ rsolver_t make_solver(const config_t& c)
         solver->parameter(prefix + "::prox::miu0_range")   = std::make_tuple(c.miu_lo, c.miu_hi);
         solver->parameter(prefix + "::prox::min_dot_nuv")  = c.min_dot_nuv;
     }
+    // every other configuration is run through a CLONE of the configured object (what the model-fitting code does with
+    // its solver): the clone must carry the configuration (seeded change C03/5: a clone() that loses `*this`)
+    if ((c.max_evals & 1) != 0)
+    {
+        return solver->clone();
+    }
     return solver;
 }
 
